@@ -100,6 +100,12 @@ def templates():
     T['dict_display'] = "L({q(1): q(2), q(3): q(4)})\n"
     T['comprehension'] = "L([q(i) for i in (q(5), q(6)) if q(7)])\n"
     T['fstring'] = "L(f'{q(1)!r:>{q(2)}}{q(3)}')\n"
+    # expression statements that are nothing but a literal with evaluated parts
+    T['bare_fstring'] = "f'{q(1)!r:>{q(2)}}{q(3)}'\nf'a{q(4)}' f'{q(5)}b'\n"
+    T['bare_fstring_in_function'] = "def f():\n    f'{q(1)}{q(2)!s}'\n    return q(3)\nf()\n"
+    T['bare_fstring_in_class'] = "class K:\n    f'{q(1)}'\n    f'{q(2):{q(3)}}'\n"
+    T['bare_fstring_in_branches'] = "if q(1):\n    f'{q(2)}'\nelse:\n    f'{q(3)}'\nfor i in [q(4)]:\n    f'{q(5)}{i}'\n"
+    T['bare_displays'] = "[q(1), q(2)]\n(q(3), q(4))\n{q(5): q(6)}\n{q(7)}\nq(8)[q(9)]\nq(10).a\n-q(11)\nq(12) if q(13) else q(14)\n"
     T['import_order'] = "import json, os\n"
     T['global_assign_in_func'] = "def f():\n    global g1\n    g1 = q(1)\n    p(2).a = q(3)\nf()\n"
     T['nonlocal_assign'] = "def f():\n    v = q(0)\n    def g():\n        nonlocal v\n        v = q(1)\n        p(2)[q(3)] = v\n    g()\nf()\n"
